@@ -187,10 +187,19 @@ func RunC13(env *sim.Env) {
 				continue
 			}
 			faultsTried++
-			fc := Call{Tmpl: m, Data: data, FaultProbe: k}
+			// what the failing function raises: usually an error; sometimes a Go runtime error, or (when the
+			// catch body does not call .Error() on it) a plain string - try absorbs all of them
+			kind := 0
+			switch {
+			case k%4 == 3:
+				kind = 2
+			case k%4 == 1 && opts.CatchForm != 2:
+				kind = 1
+			}
+			fc := Call{Tmpl: m, Data: data, FaultProbe: k, FaultKind: kind}
 			F, _ := run(&jetSet{set}, fc)
 			env.Event("fault k=%d id=%d inst=%d -> %016x", k, id, j, sim.HashString(F.Key()))
-			env.Stat("fault:function_panics_with_error_inside_try_body", 1)
+			env.Stat("fault:function_"+[]string{"panics_with_error", "panics_with_string", "hits_go_runtime_error"}[kind]+"_inside_try_body", 1)
 			// no trace in later executions either: the fault-free run repeated right after must be unchanged
 			if reruns < 10 {
 				reruns++
@@ -315,13 +324,18 @@ func RunC13(env *sim.Env) {
 				okMid = okMid && tail == ""
 			case 2:
 				inj := fmt.Sprintf("INJ-%d-", id)
-				okMid = okMid && strings.Contains(tail, inj) && !reMarker.MatchString(tail) && strings.Count(tail, inj) == 1
+				if kind == 2 {
+					// a runtime error carries its own text
+					okMid = okMid && tail != "" && !reMarker.MatchString(tail)
+				} else {
+					okMid = okMid && strings.Contains(tail, inj) && !reMarker.MatchString(tail) && strings.Count(tail, inj) == 1
+				}
 			}
 			if !okMid {
 				key := "body-leaked"
 				if strings.Count(mid, "[CATCH]") != boolInt(opts.CatchForm > 0) {
 					key = "catch-count"
-				} else if opts.CatchForm == 2 && !strings.Contains(mid, fmt.Sprintf("INJ-%d-", id)) {
+				} else if opts.CatchForm == 2 && kind != 2 && !strings.Contains(mid, fmt.Sprintf("INJ-%d-", id)) {
 					key = "catch-var"
 				}
 				env.Violate("spliced-output", key, "failure at call %d = fail(%d) (%s line %d, under %v): the try statement rendered %s; expected only the catch body (form %d) with the injected error", k, id, ps.File, ps.Line, ps.Encl, sim.Q(mid), opts.CatchForm)
